@@ -436,7 +436,9 @@ def frequency_to_midi_pitch(
     midi_pitch : int or np.ndarray
         MIDI pitch of the notes.
     """
-    midi_pitch = np.round(12 * np.log2(32 * freq / a4) + 9)
+    # divide first: `32 * freq` wraps around in narrow integer types
+    # (int16 from 1024 Hz, uint16 from 2048 Hz)
+    midi_pitch = np.round(12 * np.log2(32 * (freq / a4)) + 9)
 
     if isinstance(midi_pitch, np.ndarray):
         return midi_pitch.astype(int)
